@@ -20,6 +20,7 @@ pub mod c19;
 pub mod c20;
 pub mod c21;
 pub mod c33;
+pub mod c34;
 pub mod dbg;
 pub mod c22;
 pub mod c23;
@@ -64,6 +65,7 @@ pub fn dispatch(id: &str, args: &Args) -> i32 {
         "C28" => drive_main(&c28::C28, args),
         "C31" => drive_main(&c31::C31, args),
         "C32" => drive_main(&c32::C32, args),
+        "C34" => drive_main(&c34::C34, args),
         "C33" => drive_main(&c33::C33, args),
         "dbg" => crate::props::dbg::main(),
         _ => {
